@@ -51,6 +51,15 @@ func NewSession(info Info, sessionID []byte, pl *pool.Pool, auxInfo ...hash.Writ
 		return nil, errors.New("session: selfID not included in partyIDs")
 	}
 
+	// An empty identifier cannot be hashed or addressed (a message with an empty
+	// recipient is a broadcast), and its scalar image is 0, the point at which
+	// polynomial sharings hold the secret itself.
+	for _, id := range partyIDs {
+		if id == "" {
+			return nil, errors.New("session: partyIDs contains an empty identifier")
+		}
+	}
+
 	// make sure the threshold is correct
 	if info.Threshold < 0 || info.Threshold > math.MaxUint32 {
 		return nil, fmt.Errorf("session: threshold %d is invalid", info.Threshold)
